@@ -24,6 +24,7 @@ pub fn run(ctx: &Ctx, rep: &mut Report) -> bool {
         "c10" => tsig::run_c10(ctx, rep),
         "c29" => pool::run(ctx, rep),
         "c30" => io::run(ctx, rep),
+        "c31" => daemon::run(ctx, rep),
         "c32" => swap::run(ctx, rep),
         "c23" => zonefile::run_c23(ctx, rep),
         "c24" => zonefile::run_c24(ctx, rep),
@@ -73,3 +74,4 @@ pub mod zonefile;
 pub mod pool;
 pub mod swap;
 pub mod io;
+pub mod daemon;
